@@ -1,4 +1,5 @@
 import Thanos.Model.Reloader
+import Thanos.Lemmas.Reloader
 import Thanos.Generated.Facts
 /-
   C47 — The config reloader applies the latest configuration.
@@ -41,16 +42,309 @@ def runHistory (c : Conf) (track : Bool) : St → List Snap → St
     output directory of every CfgDir holds exactly the current inputs -/
 def C47_removed_full (track : Bool) : Prop :=
   ∀ (c : Conf) (hist : List Snap) (s : Snap) (n : Nat),
+    (∀ s' ∈ hist, s'.dirs.length = s.dirs.length) →   -- the configured directories do not change
     (apply c track (runHistory c track {} hist) s).2 = .ok n →
-    ∀ i name v, ((Key.dir i name, v) ∈ (apply c track (runHistory c track {} hist) s).1.out) →
+    ∀ i name, (apply c track (runHistory c track {} hist) s).1.out.get (Key.dir i name) ≠ none →
       ∃ d, s.dirs[i]? = some d ∧ ∃ f ∈ d, f.name = name
 
 /-- As the code was, this is false: apply {a}; apply {a, b, c} fails on c (unset variable) after
     writing b; apply {a} succeeds and leaves output b behind, untracked. -/
 theorem C47_removed_full_false : ¬ C47_removed_full false := by
   intro h
-  have := h wConf [wSnap [wA], wSnap [wA, wB, wC]] (wSnap [wA]) 0 (by decide) 0 "b" "y" (by decide)
+  have := h wConf [wSnap [wA], wSnap [wA, wB, wC]] (wSnap [wA]) 0 (by decide) (by decide) 0 "b" (by decide)
   revert this
+  decide
+
+/-! ### the reload decision, for one `apply` -/
+
+/-- **reload iff**: an `apply` that returns without error calls the reload endpoint exactly when
+    the content on disk differs from what was recorded at the last successful reload, or the
+    previous reload failed (`force`).  (Watch interval > 0; the endpoint is asked at least once.) -/
+theorem C47_reload_iff (c : Conf) (track : Bool) (st : St) (s : Snap) (n : Nat)
+    (hok : (apply c track st s).2 = .ok n) (hw : c.watchZero = false) (hlen : LenInv st s)
+    (hs : s.script ≠ []) :
+    0 < n ↔ (st.force = true ∨ lastOf st ≠ contentOf c s) := by
+  obtain ⟨h1, h2⟩ := apply_ok_cases c track st s n hok hw hlen
+  constructor
+  · intro hn
+    apply Classical.byContradiction
+    intro hnot
+    have := (h1 hnot).1
+    omega
+  · intro hneeds
+    rw [(h2 hneeds).1]
+    exact retry_pos s.script hs
+
+/-- **a successful reload is recorded**: afterwards the reloader remembers exactly the content it
+    reloaded and no retry is pending -/
+theorem C47_success_recorded (c : Conf) (track : Bool) (st : St) (s : Snap) (n : Nat)
+    (hok : (apply c track st s).2 = .ok n) (hw : c.watchZero = false) (hlen : LenInv st s)
+    (hneeds : st.force = true ∨ lastOf st ≠ contentOf c s) (hsucc : s.script.any id = true) :
+    lastOf (apply c track st s).1 = contentOf c s ∧ (apply c track st s).1.force = false := by
+  obtain ⟨_, h2⟩ := apply_ok_cases c track st s n hok hw hlen
+  exact (h2 hneeds).2.1 (by rw [retry_ok_iff]; exact hsucc)
+
+/-- **retry**: when every request of an `apply` fails, the next `apply` asks again even if nothing
+    changed on disk -/
+theorem C47_retry (c : Conf) (track : Bool) (st : St) (s s2 : Snap) (n n2 : Nat)
+    (hok : (apply c track st s).2 = .ok n) (hw : c.watchZero = false) (hlen : LenInv st s)
+    (hneeds : st.force = true ∨ lastOf st ≠ contentOf c s) (hfail : s.script.any id = false)
+    (hok2 : (apply c track (apply c track st s).1 s2).2 = .ok n2) (hlen2 : LenInv (apply c track st s).1 s2)
+    (hs2 : s2.script ≠ []) :
+    (apply c track st s).1.force = true ∧ 0 < n2 := by
+  obtain ⟨_, h2⟩ := apply_ok_cases c track st s n hok hw hlen
+  have hf := ((h2 hneeds).2.2 (by rw [retry_ok_iff]; exact hfail)).2
+  exact ⟨hf, (C47_reload_iff c track _ s2 n2 hok2 hw hlen2 hs2).mpr (Or.inl hf)⟩
+
+/-- **quiescence**: once the recorded content is the content on disk and no retry is pending, an
+    `apply` that returns without error makes no request and changes none of the bookkeeping -/
+theorem C47_quiescent (c : Conf) (track : Bool) (st : St) (s : Snap) (n : Nat)
+    (hok : (apply c track st s).2 = .ok n) (hw : c.watchZero = false)
+    (hlast : lastOf st = contentOf c s) (hf : st.force = false) :
+    n = 0 ∧ lastOf (apply c track st s).1 = lastOf st ∧ (apply c track st s).1.force = false := by
+  have hlen : LenInv st s := by
+    right
+    have : st.lastDirs = s.dirs.map hashFiles := by
+      have := congrArg (fun x => x.2.1) hlast
+      simpa [lastOf, contentOf] using this
+    rw [this]; simp
+  obtain ⟨h1, _⟩ := apply_ok_cases c track st s n hok hw hlen
+  have := h1 (by
+    rintro (h | h)
+    · rw [hf] at h; exact Bool.noConfusion h
+    · exact h hlast)
+  exact ⟨this.1, this.2.1, by rw [this.2.2]; exact hf⟩
+
+/-- an `apply` that fails leaves the reload bookkeeping alone -/
+theorem apply_err_keeps (c : Conf) (track : Bool) (st : St) (s : Snap) (e : Err)
+    (herr : (apply c track st s).2 = .err e) :
+    lastOf (apply c track st s).1 = lastOf st ∧ (apply c track st s).1.force = st.force := by
+  unfold apply at herr ⊢
+  cases hcs : cfgStep c st s with
+  | error e' => exact ⟨rfl, rfl⟩
+  | ok o0 =>
+    simp only [hcs] at herr ⊢
+    exact (finish_err c st s _ e herr).2
+
+/-- the results of a history -/
+def results (c : Conf) (track : Bool) : St → List Snap → List Res
+  | _, [] => []
+  | st, s :: rest => (apply c track st s).2 :: results c track (apply c track st s).1 rest
+
+/-- **eventually**: after a successful reload of content `K` (recorded, no retry pending), as long
+    as the files keep showing `K`, no apply requests another reload — every later result is `ok 0`
+    or an error of reading/expanding the inputs; in particular exactly one successful reload
+    follows the last change. -/
+theorem C47_eventually (c : Conf) (track : Bool) (hw : c.watchZero = false)
+    (K : Option Hash × List Hash × Option Hash) :
+    ∀ (snaps : List Snap) (st : St), lastOf st = K → st.force = false →
+      (∀ s ∈ snaps, contentOf c s = K) →
+      ∀ r ∈ results c track st snaps, r = .ok 0 ∨ ∃ e, r = .err e := by
+  intro snaps
+  induction snaps with
+  | nil => intro st _ _ _ r hr; simp [results] at hr
+  | cons s rest ih =>
+    intro st hlast hf hsame r hr
+    have hK : lastOf st = contentOf c s := by rw [hlast, hsame s (by simp)]
+    simp only [results, List.mem_cons] at hr
+    cases hres : (apply c track st s).2 with
+    | ok n =>
+      obtain ⟨h0, hl, hf'⟩ := C47_quiescent c track st s n hres hw hK hf
+      rcases hr with rfl | hr
+      · left; rw [hres, h0]
+      · exact ih _ (by rw [hl, hlast]) hf' (fun s' hs' => hsame s' (by simp [hs'])) r hr
+    | err e =>
+      obtain ⟨hl, hf'⟩ := apply_err_keeps c track st s e hres
+      rcases hr with rfl | hr
+      · right; exact ⟨e, hres⟩
+      · exact ih _ (by rw [hl, hlast]) (by rw [hf', hf]) (fun s' hs' => hsame s' (by simp [hs'])) r hr
+
+/-! ### the output files -/
+
+theorem keysOf_start (st : St) (s : Snap) (h : KeysOf 0 st.lastDirFiles) :
+    KeysOf 0 (if st.lastDirFiles.isEmpty = true then s.dirs.map (fun _ => none) else st.lastDirFiles) := by
+  split
+  · intro j l hj; simp at hj
+  · exact h
+
+/-- the tracked output lists name outputs of their own directory (an invariant of `apply`) -/
+theorem keysOf_apply (c : Conf) (track : Bool) (st : St) (s : Snap) (h : KeysOf 0 st.lastDirFiles) :
+    KeysOf 0 (apply c track st s).1.lastDirFiles := by
+  unfold apply
+  cases hcs : cfgStep c st s with
+  | error e => exact h
+  | ok o0 =>
+    simp only
+    rw [(finish_out c st s _).2]
+    exact (passDirs_out c track s.env st.lastDirs s.dirs 0 _ o0 [] _ (keysOf_start st s h)).2.1
+
+/-- **outputs**: after an `apply` that returns without error, the config output file and the
+    output of every file of every config directory hold the input, gunzipped if needed, with the
+    environment variables substituted. -/
+theorem C47_outputs (c : Conf) (track : Bool) (st : St) (s : Snap) (n : Nat)
+    (hok : (apply c track st s).2 = .ok n) (hinv : KeysOf 0 st.lastDirFiles) :
+    (c.hasCfg = true → c.hasOut = true → ∃ f v, s.cfg = some f ∧ expected c s.env f = some v ∧
+        (apply c track st s).1.out.get .cfg = some v) ∧
+    (∀ i d, s.dirs[i]? = some d → (d.map (·.name)).Nodup → ∀ f ∈ d, ∃ v, expected c s.env f = some v ∧
+        (apply c track st s).1.out.get (.dir i f.name) = some v) := by
+  unfold apply at hok ⊢
+  cases hcs : cfgStep c st s with
+  | error e => simp [hcs] at hok
+  | ok o0 =>
+    simp only [hcs] at hok ⊢
+    rw [(finish_out c st s _).1]
+    have hpe := finish_ok_err c st s _ n hok
+    obtain ⟨pf, _, pw⟩ := passDirs_out c track s.env st.lastDirs s.dirs 0 _ o0 []
+      (st.lastDirs.isEmpty && !s.dirs.isEmpty) (keysOf_start st s hinv)
+    constructor
+    · intro hc ho
+      unfold cfgStep at hcs
+      simp only [hc, ho, if_true] at hcs
+      cases hcfg : s.cfg with
+      | none => simp [hcfg] at hcs
+      | some f =>
+        simp only [hcfg] at hcs
+        obtain ⟨v, hv, ho0⟩ := normalize_ok c s.env f .cfg st.out o0 hcs
+        refine ⟨f, v, rfl, hv, ?_⟩
+        show (dirsStep c track st s o0).out.get .cfg = some v
+        unfold dirsStep
+        rw [pf .cfg (fun m nm h => by cases h), ho0, get_set]
+        simp
+    · intro i d hd hnd f hf
+      obtain ⟨v, hv, hg⟩ := pw hpe i d hd hnd f hf
+      refine ⟨v, hv, ?_⟩
+      show (dirsStep c track st s o0).out.get (.dir i f.name) = some v
+      unfold dirsStep
+      simpa using hg
+
+/-- the invariant behind "outputs whose inputs disappeared are removed": the tracked lists name
+    outputs of their own directory, there is one per directory, and every output present in an
+    output directory is tracked -/
+def TrackInv (st : St) (n : Nat) : Prop :=
+  KeysOf 0 st.lastDirFiles ∧ (st.lastDirFiles = [] ∨ st.lastDirFiles.length = n) ∧
+  Tracked 0 (if st.lastDirFiles.isEmpty then List.replicate n none else st.lastDirFiles) st.out
+
+theorem trackInv_init (n : Nat) : TrackInv {} n := by
+  refine ⟨fun j l hj => by simp at hj, Or.inl rfl, ?_⟩
+  intro m nm _ h
+  simp [OutFS.get] at h
+
+theorem map_none_eq (ds : List (List File)) : ds.map (fun _ => (none : Option (List Key))) = List.replicate ds.length none := by
+  induction ds with
+  | nil => rfl
+  | cons _ _ ih => simp [List.replicate_succ, ih]
+
+/-- what the repaired `apply` guarantees about the directory outputs, from a state satisfying the
+    invariant: the invariant again (whatever the result), and on success exactly the current files -/
+theorem apply_tracked (c : Conf) (st : St) (s : Snap) (h : TrackInv st s.dirs.length) :
+    TrackInv (apply c true st s).1 s.dirs.length ∧
+    (∀ n, (apply c true st s).2 = .ok n → ∀ i name, (apply c true st s).1.out.get (Key.dir i name) ≠ none →
+      ∃ d, s.dirs[i]? = some d ∧ ∃ f ∈ d, f.name = name) := by
+  obtain ⟨hk, hlen, ht⟩ := h
+  unfold apply
+  cases hcs : cfgStep c st s with
+  | error e => exact ⟨⟨hk, hlen, ht⟩, fun n hn => by simp at hn⟩
+  | ok o0 =>
+    simp only
+    -- the config-file step does not touch directory outputs
+    have ho0 : ∀ m nm, o0.get (Key.dir m nm) = st.out.get (Key.dir m nm) := by
+      intro m nm
+      unfold cfgStep at hcs
+      split at hcs
+      · split at hcs
+        · cases hcs
+        · split at hcs
+          · rename_i f _ _
+            obtain ⟨v, _, h0⟩ := normalize_ok c s.env f .cfg st.out o0 hcs
+            rw [h0, get_set]; simp
+          · cases hcs; rfl
+      · cases hcs; rfl
+    have hlf : (if st.lastDirFiles.isEmpty = true then s.dirs.map (fun _ => none) else st.lastDirFiles).length = s.dirs.length := by
+      split
+      · simp
+      · rename_i hne
+        rcases hlen with h | h
+        · simp [h] at hne
+        · exact h
+    have htr : Tracked 0 (if st.lastDirFiles.isEmpty = true then s.dirs.map (fun _ => none) else st.lastDirFiles) o0 := by
+      intro m nm hm hne
+      rw [ho0] at hne
+      have := ht m nm hm hne
+      rw [map_none_eq]
+      exact this
+    obtain ⟨p1, p2, p3⟩ := passDirs_tracked c s.env st.lastDirs s.dirs 0 _ o0 []
+      (st.lastDirs.isEmpty && !s.dirs.isEmpty) (keysOf_start st s hk) hlf htr
+    have pk := (passDirs_out c true s.env st.lastDirs s.dirs 0 _ o0 [] (st.lastDirs.isEmpty && !s.dirs.isEmpty)
+      (keysOf_start st s hk)).2.1
+    obtain ⟨fo, ff⟩ := finish_out c st s (dirsStep c true st s o0)
+    have hd : dirsStep c true st s o0 = passDirs c true s.env st.lastDirs 0 s.dirs
+        (if st.lastDirFiles.isEmpty = true then s.dirs.map (fun _ => none) else st.lastDirFiles) o0 []
+        (st.lastDirs.isEmpty && !s.dirs.isEmpty) := rfl
+    rw [← hd] at p1 p2 p3 pk
+    constructor
+    · refine ⟨by rw [ff]; exact pk, Or.inr (by rw [ff]; exact p2), ?_⟩
+      rw [ff, fo]
+      split
+      · rename_i he
+        have hnil : (dirsStep c true st s o0).files = [] := by simpa using he
+        have hz : s.dirs.length = 0 := by rw [← p2, hnil]; rfl
+        rw [hz]
+        rw [hnil] at p1
+        exact p1
+      · exact p1
+    · intro n hn i name hne
+      rw [fo] at hne
+      have hpe := finish_ok_err c st s _ n hn
+      obtain ⟨l, hl, hmem⟩ := p1 i name (Nat.zero_le _) hne
+      simp only [Nat.sub_zero] at hl
+      have hi : i < s.dirs.length := by
+        rw [← p2]
+        exact (List.getElem?_eq_some_iff.mp hl).1
+      have hdi : s.dirs[i]? = some s.dirs[i] := List.getElem?_eq_getElem hi
+      have := p3 hpe i s.dirs[i] hdi
+      rw [this] at hl
+      simp only [Option.some.injEq] at hl
+      subst hl
+      simp only [Nat.zero_add, List.mem_map] at hmem
+      obtain ⟨f, hf, hfe⟩ := hmem
+      refine ⟨s.dirs[i], hdi, f, hf, ?_⟩
+      injection hfe with _ h2
+
+theorem trackInv_history (c : Conf) (n : Nat) : ∀ (hist : List Snap) (st : St), TrackInv st n →
+    (∀ s ∈ hist, s.dirs.length = n) → TrackInv (runHistory c true st hist) n := by
+  intro hist
+  induction hist with
+  | nil => intro st h _; exact h
+  | cons s rest ih =>
+    intro st h hn
+    have hs : s.dirs.length = n := hn s (by simp)
+    simp only [runHistory]
+    apply ih
+    · have := (apply_tracked c st s (by rw [hs]; exact h)).1
+      rw [hs] at this
+      exact this
+    · exact fun s' hs' => hn s' (by simp [hs'])
+
+/-- **removed** (the repaired code): along every history of applies — including applies that fail
+    half-way through a directory — an apply that returns without error leaves in each output
+    directory exactly outputs of files the input directory holds now. -/
+theorem C47_removed : C47_removed_full true := by
+  intro c hist s n hdirs hok i name hne
+  have hinv := trackInv_history c s.dirs.length hist {} (trackInv_init _) hdirs
+  exact (apply_tracked c _ s hinv).2 n hok i name hne
+
+/-! ### what the hash framing distinguishes (the model keeps the hashed lists themselves) -/
+
+/-- the bytes `hashFile` feeds to one sha256 state for a list of files: 0xff path 0xff content … -/
+def hashFrame (fs : List (List Nat × List Nat)) : List Nat :=
+  fs.flatMap fun f => 255 :: f.1 ++ 255 :: f.2
+
+/-- The framing alone does not separate all directory contents: a file whose content contains
+    0xff can imitate two files.  (Not reachable with UTF-8 text, which never contains 0xff; the
+    model's `Hash` assumes the framing + sha256 injective, i.e. text inputs.) -/
+theorem hashFrame_not_injective :
+    hashFrame [([97], [120, 255, 98, 255, 121])] = hashFrame [([97], [120]), ([98], [121])] ∧
+    [(([97] : List Nat), ([120, 255, 98, 255, 121] : List Nat))] ≠ [([97], [120]), ([98], [121])] := by
   decide
 
 /-- Regenerated obligations: whether the entries loop of `apply` tracks every output as soon as it
@@ -59,5 +353,22 @@ theorem C47_removed_full_false : ¬ C47_removed_full false := by
 theorem C47_track_fact : Thanos.Facts.reloaderTracksWrittenOutputs = "yes" := by decide
 theorem C47_noreload_fact : Thanos.Facts.reloaderNoReloadCond =
     "!r.forceReload && !cfgDirsChanged && bytes.Equal(r.lastCfgHash, cfgHash) && bytes.Equal(r.lastWatchedDirsHash, watchedDirsHash)" := rfl
+
+-- non-vacuity: the first apply of a one-directory setup reloads once and records the content; a
+-- second apply with the same files makes no request; a failed reload sets the retry flag; the
+-- hypotheses of the theorems above hold on these
+example : (apply wConf true {} (wSnap [wA])).2 = .ok 1 := by decide
+example : LenInv {} (wSnap [wA]) := Or.inl rfl
+example : lastOf (apply wConf true {} (wSnap [wA])).1 = contentOf wConf (wSnap [wA]) := by decide
+example : (apply wConf true (apply wConf true {} (wSnap [wA])).1 (wSnap [wA])).2 = .ok 0 := by decide
+example : (apply wConf true {} { wSnap [wA] with script := [false, false] }).1.force = true := by decide
+example : (apply wConf true {} { wSnap [wA] with script := [false, false] }).2 = .ok 2 := by decide
+example : (apply wConf true (runHistory wConf true {} [wSnap [wA], wSnap [wA, wB, wC]]) (wSnap [wA])).1.out
+    = [(Key.dir 0 "a", "x")] := by decide
+example : (apply wConf false (runHistory wConf false {} [wSnap [wA], wSnap [wA, wB, wC]]) (wSnap [wA])).1.out
+    = [(Key.dir 0 "a", "x"), (Key.dir 0 "b", "y")] := by decide
+example : (expandEnv (lookupEnv [("A", "1")]) false "x$(A)$(").toOption = some "x1$(" := by decide
+example : (expandEnv (lookupEnv []) false "x$(A)").toOption = none := by decide
+example : (expandEnv (lookupEnv []) true "x$(A)").toOption = some "x$(A)" := by decide
 
 end Thanos.Reloader
